@@ -63,6 +63,9 @@ def check_case(case):
         gd_max = {"time": 1.0, "double": 2 * (abs(te) + abs(sp["tau"]) + abs(sp.get("tau2", 0.0))), "state": 1.05, "dstate": 1.05}[sp["kind"]]
         level_sc = {"time": abs(te) + abs(sp["tau"]), "double": (abs(te) + abs(sp["tau"])) * (abs(te) + abs(sp.get("tau2", 0.0))) + 1, "state": 2.0 * ysc, "dstate": 2.0 * ysc}[sp["kind"]]
         gb = s * (64 * e * (level_sc + 1.0) + gd_max * 64 * e * tsc)
+        # the root finder's documented residual tolerance is absolute (4*D.epsilon = 16 eps): a point with |g| below it is 'zero to within the
+        # tolerance' (C14); for tiny scales the residual clause is then vacuous and the location clause below carries the claim
+        gb = max(gb, 16 * e)
         if abs(gv) > gb:
             r.v("C07/residual/%s" % name, "g(t_e, y_e) ~ 0", cs, observed=dict(g=gv, bound=gb, t_e=te), expected="|g| <= bound")
             continue
